@@ -245,6 +245,11 @@ impl MqttShared {
     }
 
     fn clear_queues(&self) {
+        // connection is going away, nothing can be registered after this point
+        let mut flags = self.flags.get();
+        flags.insert(Flags::STOPPED);
+        self.flags.set(flags);
+
         let mut queues = self.queues.borrow_mut();
         queues.waiters.clear();
         self.streaming_waiter.take();
@@ -303,6 +308,15 @@ impl MqttShared {
             } else {
                 Err(SendPacketError::Disconnected)
             }
+        } else {
+            Ok(())
+        }
+    }
+
+    /// Nothing is registered once queues are cleared, nobody would complete it
+    fn check_stopped(&self) -> Result<(), SendPacketError> {
+        if self.flags.get().contains(Flags::STOPPED) {
+            Err(SendPacketError::Disconnected)
         } else {
             Ok(())
         }
@@ -412,6 +426,7 @@ impl MqttShared {
         ack: AckType,
         pkt: codec::Packet,
     ) -> Result<pool::Receiver<Ack>, SendPacketError> {
+        self.check_stopped()?;
         self.check_streaming()?;
 
         let mut queues = self.queues.borrow_mut();
@@ -439,6 +454,7 @@ impl MqttShared {
         pkt: Publish,
         payload: Option<Bytes>,
     ) -> Result<pool::Receiver<Ack>, SendPacketError> {
+        self.check_stopped()?;
         self.check_streaming()?;
         let remaining = Self::streaming_size(&pkt, payload.as_ref());
 
@@ -467,6 +483,7 @@ impl MqttShared {
         pkt: Publish,
         payload: Option<Bytes>,
     ) -> Result<(), SendPacketError> {
+        self.check_stopped()?;
         self.check_streaming()?;
         let remaining = Self::streaming_size(&pkt, payload.as_ref());
 
